@@ -568,6 +568,51 @@ def runfsm_exec(run, fx):
     return cases, None
 
 
+DIR_READERS = {
+    'graphite2::Face::runGraphite': 'mirrors a right-to-left text once, before / without a bidi pass',
+    'graphite2::Silf::runGraphite': 'the same for a font with a bidi pass; compares the stream\'s current order with the pass direction',
+    'graphite2::Slot::getAttr': 'gr_slatDir: the attribute a rule may READ is the direction of the text',
+    'graphite2::Segment::justify': 'puts the line into pass order and back',
+    'graphite2::Segment::finalise': 'the final positioning restores the text order',
+    'graphite2::Segment::reverseSlots': 'toggles the "currently reversed" bit',
+    'graphite2::Segment::currdir': 'the order the stream is in right now',
+    'graphite2::Segment::doMirror': 'mirroring',
+    'graphite2::Segment::linkClusters': 'links the bases of the finished stream in text order',
+    'gr_seg_justify': 'API',
+}
+
+
+def dirreaders(run, fx):
+    """PASSORDER: passes run on the stream in PASS order (the engine reverses the stream between passes when the text runs the other
+    way), so what a rule action does -- attach, shift, kern -- depends on the direction of the slot map (the pass), never on the direction
+    of the text.  Who may read Segment::dir() / m_dir is therefore a closed list: the drivers that decide about reversal and mirroring,
+    and the read-only slot attribute gr_slatDir.  (`(seg->dir() & 1)` in Slot::setAttr's attach.to default picks the wrong side of the
+    base whenever right-to-left text is shaped with a left-to-right font.)"""
+    readers = {}
+    for fn in fx.all_fns():
+        if not fn.file.startswith('src/') or fn.f.get('implicit'):
+            continue
+        for _, e in fn.elements():
+            hit = ((e.get('fq') or '') == 'graphite2::Segment::dir' and e['k'] in ('CXXMemberCallExpr', 'CallExpr')) or \
+                  (e['k'] == 'MemberExpr' and e.get('d') == 'graphite2::Segment::m_dir')
+            if hit and fn.q != 'graphite2::Segment::dir':
+                readers.setdefault(fn.q, e if 'ln' in e else None)
+                readers[fn.q] = readers[fn.q] or e
+    inst = 'the direction of the text is read only by the reversal / mirroring drivers and gr_slatDir'
+    if len(readers) < 3:
+        run.broken('PASSORDER', inst, 'only %d readers of Segment::dir() / m_dir found' % len(readers))
+        return
+    bad = sorted(q for q in readers if q not in DIR_READERS and not q.startswith('graphite2::Segment::Segment'))
+    if bad:
+        fn = fx.fns_named(bad[0])[0]
+        e = readers[bad[0]]
+        run.violated('PASSORDER', inst, fn.loc(e) if e is not None else fn.where(), '%s reads the direction of the TEXT (Segment::dir()): rule actions and positioning helpers run on the stream in pass order and '
+                     'may only depend on the direction of the pass (SlotMap::dir()); with right-to-left text on a left-to-right font (or the reverse) the two differ and the result is '
+                     'mirrored -- e.g. attach.to defaults the attachment point to the wrong side of the base' % bad[0])
+    else:
+        run.held('PASSORDER', inst, '', '%d readers, all tabled: %s' % (len(readers), sorted(q.split('::')[-1] for q in readers)))
+
+
 def run(run):
     vm = R.get_vm(run)
     fx = vm.fx
@@ -607,6 +652,7 @@ def run(run):
     except AnalysisBroken as ex:
         run.broken('PRECEDENCE', irf_, str(ex), '')
     firstpassing(run, fx)
+    dirreaders(run, fx)
     inst_ = 'INSERT / DELETE change the stream as documented: the one slot added / removed, cursor and high-water mark moved with it (handlers interpreted)'
     try:
         from . import c03 as c03_
